@@ -11,6 +11,8 @@ def INCLUDE(name):
 
 def replay(ob):
     n = ob["name"]
+    if "ScatterAllDynamic" in n:
+        return HEAD + "main(['scatter_dynamic_shape_attrs'])\n"
     if "C06.matcher.match_constant" in n:
         return HEAD + "main(['literal_rank', 'add_eps'])\n"
     if "ScatterAllStatic.fires_only_for_indices" in n or "ScatterAllStatic.check_decides" in n:
